@@ -199,9 +199,9 @@ def judge(cmds, prop, res=None):
     return bad, run
 
 
-def site_for(cls, cmds, symptom=""):
+def site_for(cls, cmds, symptom="", upto=None):
     from .cores import dup_symptom
-    parts = [dup_symptom(cmds)]
+    parts = [dup_symptom(cmds, upto)]
     if any(c["k"] == "pop" for c in cmds):
         parts.append("pop")
     if symptom:
@@ -236,8 +236,8 @@ def case(param):
         seen.add(cls)
 
         from ..core import is_known
-        if is_known(prop, cls, site_for(cls, cmds, b[3])):
-            res.viol.append(Violation(cls, site_for(cls, cmds, b[3]), "%s (command #%d, not minimised: matches a known finding)\n%s" % (
+        if is_known(prop, cls, site_for(cls, cmds, b[3], b[0])):
+            res.viol.append(Violation(cls, site_for(cls, cmds, b[3], b[0]), "%s (command #%d, not minimised: matches a known finding)\n%s" % (
                 cls, b[0], b[2][:600]), sr.witness(cmds, prop=prop)))
             continue
 
@@ -249,7 +249,7 @@ def case(param):
         bb = [x for x in bb if x[1] == cls]
         if not bb:
             small, bb = cmds, [b]
-        res.viol.append(Violation(cls, site_for(cls, small, bb[0][3]), "%s (command #%d)\n%s\n--- script ---\n%s" % (
+        res.viol.append(Violation(cls, site_for(cls, small, bb[0][3], bb[0][0]), "%s (command #%d)\n%s\n--- script ---\n%s" % (
             cls, bb[0][0], bb[0][2][:1200], gen.render(small, markers=False)), sr.witness(small, prop=prop)))
     return res
 
@@ -262,7 +262,7 @@ def replay(prop):
         for b in bad:
             if b[1] not in seen:
                 seen.add(b[1])
-                out.append(Violation(b[1], site_for(b[1], cmds, b[3]), "replayed: " + b[2][:300], w))
+                out.append(Violation(b[1], site_for(b[1], cmds, b[3], b[0]), "replayed: " + b[2][:300], w))
         return out
     return f
 
